@@ -22,6 +22,8 @@ def M(id_, file, old, new, props):
 
 
 MUTANTS = [
+    M('empty-shell-marked-minus-inf', S, "            self.shell_log_l[index] = np.nan",
+      "            self.shell_log_l[index] = -np.inf", 'C02'),
     M('reader-one-layer-short', NN,
       "                np.array(group['intercepts_{}_{}'.format(k, i)]) for k in\n"
       "                range(network.n_layers_ - 1)]",
